@@ -25,6 +25,7 @@ def run(chk, tier, only_rule=None):
     r18_6(chk, facts)
     r18_7(chk, facts)
     r18_8(chk, facts)
+    r18_11(chk, facts)
     if only_rule in (None, 'R18.3', 'R18.4'):
         toon_rules(chk, tier)
     if only_rule in ('R18.3', 'R18.4'): return
@@ -266,6 +267,87 @@ def reader_escape_table(chk, facts):
         if stores and not rejects: table[x] = stores[0].args[0] & 0xff
     return fn, table
 
+def r18_11(chk, facts):
+    """The events the CSV parser caches for column-oriented output keep their kind."""
+    chk.rule('R18.11', 'cached CSV events: each value constructor of csv parse_event stores its `value` argument in the member of the same name '
+                       'as the staj_events enumerator it records (uint64_value(value) with staj_events::uint64_value ...), and replay() '
+                       'reads, in the case of each enumerator, the member of that name; a mismatch reinterprets the union (a cached unsigned '
+                       'column value is replayed through the signed member)', floor=10)
+    ctors = {}
+    for f in sorted(facts.functions, key=lambda f: bool(f.get('dep'))):
+        if f.get('fk') == 'CXXConstructor' and A.strip_targs(f.get('cls') or '').endswith('::parse_event') and f['file'].endswith('csv_parser.hpp') and f.get('inits') and f.get('params'):
+            ctors.setdefault((f['file'], f['l']), f)
+    n = 0
+    for key, f in sorted(ctors.items()):
+        vp = f['params'][0]
+        inits = {i.get('m'): i.get('init') for i in f['inits'] if i.get('m')}
+        et = inits.get('event_type')
+        en = next((y.get('n') for y in A.walk(et) if y.get('k') == 'DeclRefExpr' and y.get('dk') == 'EnumConstant'), None) if et is not None else None
+        if en is None: continue       # the generic (event_type, tag, alloc) constructor
+        holder = [m for m, e in inits.items() if m not in ('event_type', 'tag') and any(y.get('k') == 'DeclRefExpr' and y.get('id') == vp['id'] for y in A.walk(e))]
+        n += 1
+        chk.analysed(f)
+        site = U.site(f, 'parse_event(%s ...)' % f['_types'][vp['t'] - 1][:30])
+        if holder == [en]: chk.ok('R18.11', site, {'event': en})
+        else: chk.fail('R18.11', site, f['file'], f['l'], 'parse_event constructor at line %s records staj_events::%s but stores its value in %s' % (f['l'], en, holder or 'no member'), None, f['q'])
+    # replay(): case X reads member X
+    rp = [f for f in facts.functions if f['n'] == 'replay' and A.strip_targs(f.get('cls') or '').endswith('::parse_event') and f['file'].endswith('csv_parser.hpp') and f.get('body') is not None]
+    rp = [f for f in rp if not f.get('dep')] or rp
+    chk.require(rp, 'csv parse_event::replay not found')
+    fn = rp[0]; chk.analysed(fn)
+    en_names = dict((v, k) for k, v in U.enum_by_suffix(F.load(['core'], 'quick'), '::staj_events')['values'])
+    for sw in A.walk_no_lambda(fn['body']):
+        if sw.get('k') != 'SwitchStmt': continue
+        cur = None
+        for labels, st in P.PEval.switch_items(sw.get('body')):
+            if labels: cur = [en_names.get(lo) for lo, hi in labels if lo != 'default']
+            if st is None or not cur or len(cur) != 1 or not cur[0].endswith('_value'): continue
+            mems = set(y.get('n') for y in A.walk_no_lambda(st) if y.get('k') == 'MemberExpr' and y.get('n', '').endswith('_value') and y.get('dk') == 'Field')
+            if not mems: continue
+            n += 1
+            site = U.site(fn, 'replay case %s' % cur[0])
+            if mems == {cur[0]}: chk.ok('R18.11', site, None)
+            else: chk.fail('R18.11', site, fn['file'], st.get('l'), 'replay(): the case staj_events::%s reads the member(s) %s' % (cur[0], sorted(mems)), None, fn['q'])
+    chk.require(n >= 10, 'R18.11: only %d constructor/replay sites found' % n)
+
+def r18_12(chk, facts):
+    """Inside quotes a backslash takes the next character with it, whatever it is."""
+    chk.rule('R18.12', 'TOON quoted scanning: in every scanner of the reader that tracks an in-quotes flag (find_unquoted_char, parse_key, the '
+                       'parse_delimited_values overloads) the branch that skips an escaped character is taken for a backslash inside quotes '
+                       'with no condition on the character that follows (only a bounds test may accompany it): `"a\\\\"` ends at its last quote '
+                       'only if the escaped backslash is skipped as a pair', floor=4)
+    n = 0; seen = set()
+    for fn in facts.functions:
+        if fn.get('body') is None or fn.get('dep') or not fn['file'].endswith('toon_reader.hpp') or fn['n'] == 'unescape_string': continue
+        for x in A.walk_no_lambda(fn['body']):
+            if x.get('k') != 'IfStmt': continue
+            atoms = []
+            def flat(e):
+                e = A.strip(e, casts=True)
+                if e is not None and e.get('k') == 'BinaryOperator' and e.get('op') == '&&': flat(e.get('lhs')); flat(e.get('rhs'))
+                elif e is not None: atoms.append(e)
+            flat(x.get('cond'))
+            def is_bs(a):
+                c = G.comparison(a)
+                return bool(c) and c[0] == '==' and 0x5c in (A.const(c[1]), A.const(c[2]))
+            if not any(is_bs(a) for a in atoms): continue
+            if not any(a.get('k') == 'DeclRefExpr' and 'bool' in fn['_types'][a['t'] - 1] for a in atoms): continue    # not an in-quotes scanner
+            key = (fn['file'], x.get('l'))
+            if key in seen: continue
+            seen.add(key); n += 1
+            chk.analysed(fn)
+            extra = []
+            for a in atoms:
+                if is_bs(a): continue
+                if a.get('k') == 'DeclRefExpr' and 'bool' in fn['_types'][a['t'] - 1]: continue
+                if any(A.callee_name(y) in ('size', 'length') for y in A.calls_in(a)) and G.comparison(a) and G.comparison(a)[0] in ('<', '<=', '>', '>=', '!='): continue
+                extra.append(A.text(a)[:50])
+            site = U.site(fn, 'escaped character skip at line %s' % x.get('l'))
+            if not extra: chk.ok('R18.12', site, None)
+            else: chk.fail('R18.12', site, fn['file'], x.get('l'), '%s skips the character after a backslash inside quotes only when `%s`: an escaped backslash is then read as two '
+                           'single characters and the quote after it does not close the string' % (fn['n'], ' && '.join(extra)), None, fn['q'])
+    chk.require(n >= 4, 'R18.12: only %d quoted-scanner escape branches found in toon_reader.hpp' % n)
+
 def r18_10(chk, facts, ufn, rejected, empty_rejected, front_rejected):
     """Language inclusion between the reader's number scanner and the encoder's number recogniser (engine E10)."""
     chk.rule('R18.10', 'TOON number recognisers: every token that the reader number scanner (the state loop of parse_primitive) lets through as '
@@ -496,6 +578,7 @@ def toon_rules(chk, tier):
         if v: chk.ok('R18.4', site, None)
         else: chk.fail('R18.4', site, ufn['file'], ufn['l'], 'is_unquoted_safe has no `return false` under the %s test; the reader would not return such a string unchanged' % k, None, ufn['q'])
     r18_10(chk, facts, ufn, rejected, need['empty'], front_rejected)
+    r18_12(chk, facts)
     # encode_string writes raw only under is_unquoted_safe
     for fn in U.one_per_inst([f for f in facts.functions if f['n'] == 'encode_string' and f['file'].endswith('encode_toon.hpp') and f.get('body') is not None and not f.get('dep')]):
         g2 = C.CFG(fn['body'])
